@@ -3,6 +3,8 @@ CONSTANTS LeafSet = "std"
           Deep = TRUE
           Wide3 = TRUE
           TableWide = TRUE
+          StrangeWide = TRUE
+          Only = "all"
 INIT Init
 NEXT Next
 INVARIANT RebuildStep
